@@ -705,9 +705,9 @@ def real_recording(res, meth, flags=(True, True)):
     sps = 100                  # 1 s files
     start = T0 * sps
     data = {}
-    for ch in ("cha", "chb"):
+    for ch, fcad in (("cha", 1000), ("chb", 250)):          # chb: four files per second (name times with milliseconds)
         os.makedirs(os.path.join(src, ch, "metadata"))
-        w = digital_rf.DigitalRFWriter(os.path.join(src, ch), np.int16, 3600, 1000, start, sps, 1, uuid_str="u", is_complex=False, marching_periods=False)
+        w = digital_rf.DigitalRFWriter(os.path.join(src, ch), np.int16, 3600, fcad, start, sps, 1, uuid_str="u", is_complex=False, marching_periods=False)
         arr = (np.arange(350) + (7 if ch == "chb" else 0)).astype(np.int16)
         w.rf_write(arr)
         w.close()
@@ -796,9 +796,9 @@ def windowed_start(res, meth, form):
     os.makedirs(dest)
     sps = 100
     start = T0 * sps
-    for ch in ("cha", "chb"):
+    for ch, fcad in (("cha", 1000), ("chb", 250)):          # chb: four files per second (name times with milliseconds)
         os.makedirs(os.path.join(src, ch, "metadata"))
-        w = digital_rf.DigitalRFWriter(os.path.join(src, ch), np.int16, 3600, 1000, start, sps, 1, uuid_str="u", is_complex=False, marching_periods=False)
+        w = digital_rf.DigitalRFWriter(os.path.join(src, ch), np.int16, 3600, fcad, start, sps, 1, uuid_str="u", is_complex=False, marching_periods=False)
         w.rf_write(np.arange(450).astype(np.int16))
         w.close()
         mw = digital_rf.DigitalMetadataWriter(os.path.join(src, ch, "metadata"), 3600, 1, sps, 1, "metadata")
